@@ -148,6 +148,21 @@ def run(case, rec):
     if rec.check(c.ok, "no-exception", f"interface_distance raised {common.exc_text(c.exc) if c.exc else ''}; {label}"):
         rec.check(bool(np.allclose(c.result, R * rel, rtol=1e-12, atol=1e-13 * R)), "interface-distance",
                   f"interface_distance {np.asarray(c.result)[:3].tolist()} != series {(R * rel)[:3].tolist()}; {label}")
+    # the shape function acts element by element (it is evaluated on all cells of a grid when a droplet is drawn):
+    # two-dimensional angle arrays of any memory layout give the same numbers
+    if len(theta) >= 4:
+        n2 = (len(theta) // 2) * 2
+        exp2 = (R * rel)[:n2].reshape(2, -1)
+        for lay, conv in (("C order", lambda x: np.ascontiguousarray(x[:n2].reshape(2, -1))),
+                          ("Fortran order", lambda x: np.asfortranarray(x[:n2].reshape(2, -1))),
+                          ("transposed view", lambda x: np.ascontiguousarray(x[:n2].reshape(2, -1).T).T),
+                          ("strided view", lambda x: np.repeat(x[:n2].reshape(2, -1), 2, axis=1)[:, ::2])):
+            c2 = common.monitored(rec, "interface_distance(2-d angles)", d.interface_distance, *[conv(a) for a in args])
+            if rec.check(c2.ok, "no-exception", f"interface_distance with 2-d angle arrays ({lay}) raised "
+                         f"{common.exc_text(c2.exc) if c2.exc else ''}; {label}"):
+                got2 = np.asarray(c2.result, float)
+                rec.check(got2.shape == exp2.shape and bool(np.allclose(got2, exp2, rtol=1e-12, atol=1e-13 * R)), "interface-distance",
+                          f"interface_distance with 2-d angle arrays ({lay}) differs from the element-wise values; {label}")
     pargs = (phi,) if dim == 2 else (theta, phi)
     c = common.monitored(rec, "interface_position", d.interface_position, *pargs)
     if rec.check(c.ok, "no-exception", f"interface_position raised {common.exc_text(c.exc) if c.exc else ''}; {label}"):
